@@ -28,11 +28,12 @@ MANIFEST = {
             "every failure value of every such callee (in-tool functions, documented library contracts, and "
             "read/write/open inside the tools' own I/O wrappers) drives the caller to its failure status (and "
             "main to a non-zero exit) unless the same call is retried, a failing path after the output was opened "
-            "passes through the delete-output call, the writer/reader format constants agree, and D5 the per-file "
-            "code of main's loop does not write a global that the next file's processing reads as it finds it "
-            "(password, options); decided by exhaustive exploration of a finite abstraction of each function and "
-            "by read-before-write / write effect summaries; asconsum's fopen/ferror error counters and all "
-            "run-time behaviours (round trip, tamper detection, real I/O faults) are not decided",
+            "passes through the delete-output call, the writer/reader format constants agree, D5 the per-file "
+            "code of main's loop does not write a global that the next file's processing reads as it finds it, "
+            "and D6 the output file is created and truncated when opened; decided by exhaustive exploration of a "
+            "finite abstraction of each function and by effect summaries; asconsum's fopen/ferror error counters "
+            "and all run-time behaviours (round trip for every content, tamper detection, real I/O faults) are "
+            "not decided",
     "note": "trusted: clang lowering, irdump; documented contracts of ascon_random (0 = failure) and of the "
             "library decrypt functions (negative = failure); libc I/O semantics (fread/fwrite/ferror) are "
             "modelled only through the tools' own wrappers",
